@@ -13,12 +13,14 @@ PROPS = ["C01", "C02", "C04", "C05", "C06", "C07", "C08", "C10", "C11", "C14", "
 IDEAS = json.load(open(os.path.join(VERIF, "tools", "seed_ideas.json")))
 
 TEMPLATE = open(os.path.join(VERIF, "tools", "seed_prompt.txt")).read()
+BENIGN = open(os.path.join(VERIF, "tools", "seed_prompt_benign.txt")).read()
 
 
 def main():
     n = sys.argv[1]
+    benign = n.startswith("b")        # seed_round.py b1 ... prepares a round of property-preserving changes under /tmp/benign1
     props = sys.argv[2:] or PROPS
-    root = "/tmp/seed%s" % n
+    root = ("/tmp/benign%s" % n[1:]) if benign else ("/tmp/seed%s" % n)
     os.makedirs(root + "/prompts", exist_ok=True)
     texts = {}
     for line in open(os.path.join(VERIF, "properties.jsonl")):
@@ -33,7 +35,7 @@ def main():
         ideas = IDEAS.get(p, [])
         note = "; ".join("(%d) %s" % (i + 1, t) for i, t in enumerate(ideas))
         anchors = ", ".join(pr.get("anchors", {}).get("files", []))
-        txt = TEMPLATE.replace("@ROOT@", d).replace("@ID@", p).replace("@TITLE@", pr.get("title", "")).replace("@STATEMENT@", pr.get("statement", "")) \
+        txt = (BENIGN if benign else TEMPLATE).replace("@ROOT@", d).replace("@ID@", p).replace("@TITLE@", pr.get("title", "")).replace("@STATEMENT@", pr.get("statement", "")) \
             .replace("@QUANT@", (pr.get("quantifier") or {}).get("text", "")) \
             .replace("@ANCHORS@", anchors).replace("@NIDEAS@", str(len(ideas))).replace("@IDEAS@", note)
         open(root + "/prompts/" + p + ".txt", "w").write(txt)
